@@ -215,6 +215,29 @@ func (c *Ctx) dischargeBounds(op indexOp) string {
 			}
 		}
 	}
+	// R2b the same with a loop counter that is captured by a closure (it lives in a cell): the
+	// index is a load of the cell, and the increment cannot run between the loop test and it
+	if op.kind == "index" {
+		if ld, ok := op.idx.(*ssa.UnOp); ok && ld.Op == token.MUL {
+			for _, l := range ir.Loops(fn) {
+				if l.IndexCell == nil || ld.X != ssa.Value(l.IndexCell) || !l.Complete || !(l.Over == op.x || c.U.SameValue(l.Over, op.x)) || !l.BodyBlocks()[op.in.Block()] {
+					continue
+				}
+				var inc ssa.Instruction
+				for _, r := range *l.IndexCell.Referrers() {
+					if st, isStore := r.(*ssa.Store); isStore {
+						if _, isConst := ir.ConstInt(st.Val); !isConst {
+							inc = st
+						}
+					}
+				}
+				header := l.Header
+				if inc != nil && !c.writesPathIn(fn, op.x) && !ir.CanReach(fn, ir.PathQuery{From: inc, To: op.in, Stop: func(in ssa.Instruction) bool { return in.Block() == header }}) {
+					return "range-reload (counter cell runs over len of the same, unmodified collection; no increment between the loop test and the access)"
+				}
+			}
+		}
+	}
 	// R3 SplitN guarded by Contains
 	if op.kind == "index" {
 		if call, ok := op.x.(*ssa.Call); ok && call.Call.StaticCallee() != nil && call.Call.StaticCallee().String() == "strings.SplitN" {
